@@ -50,10 +50,22 @@ REPLICATE_VALUES = [1, 2, 3, 2, 0]
 REPLICA = "replica"
 WORDS = ["alpha", "beta", "7", "x=1", "run", "-v", "n_2", "k.9", "zz"]
 NUMBERS = [0, 5, 42, 2.5, -1.5, True, False]
-# environments: several with the SAME variable names and other values, subsets / supersets of each other
-DICTS = [{"OMP_NUM_THREADS": "4"}, {"MODE": "fast", "LEVEL": "2"}, {"A": "1"}, {"MODE": "slow"},
-         {"OMP_NUM_THREADS": "8"}, {"MODE": "accurate", "LEVEL": "2"}, {"MODE": "fast", "LEVEL": "3"}, {"A": "2"},
-         {"MODE": "fast"}, {"A": "1", "MODE": "slow"}, {"LEVEL": "fast", "MODE": "2"}]
+# environments, in families whose members a careless notion of "the same environment" confuses; the dictionaries of
+# one namespace come mostly from one family
+DICT_FAMILIES = [
+    # the same variable names, other values
+    [{"MODE": "fast", "LEVEL": "2"}, {"MODE": "accurate", "LEVEL": "2"}, {"MODE": "fast", "LEVEL": "3"},
+     {"LEVEL": "fast", "MODE": "2"}],
+    # the same values under other names
+    [{"A": "1"}, {"B": "1"}, {"A": "2"}, {"OMP_NUM_THREADS": "1"}],
+    # subsets / supersets
+    [{"MODE": "slow"}, {"A": "1", "MODE": "slow"}, {"MODE": "fast"}, {"A": "1"}],
+    # the same text once names and values are joined; the same values in the same positions
+    [{"AB": "1"}, {"A": "B1"}, {"A": "1", "B": "1"}, {"KIND": "fast", "LEVEL": "2"}, {"LEVEL": "fast", "MODE": "2"}],
+    [{"OMP_NUM_THREADS": "4"}, {"OMP_NUM_THREADS": "8"}],
+]
+DICTS = [d for fam in DICT_FAMILIES for d in fam]
+_FAMILY = [DICT_FAMILIES[0]]
 
 
 class Hang(Exception):
@@ -707,7 +719,7 @@ def number(rng):
 
 
 def dictionary(rng):
-    return {"v": copy.deepcopy(rng.choice(DICTS))}
+    return {"v": copy.deepcopy(rng.choice(_FAMILY[0] if rng.random() < 0.75 else DICTS))}
 
 
 def lit_default(rng):
@@ -915,6 +927,7 @@ def gen_workflow(rng, name, idx, pool, by_name, tagged, must_use=None, root=Fals
 
 def gen_namespace(rng, depth):
     for _attempt in range(400):
+        _FAMILY[0] = rng.choice(DICT_FAMILIES)
         tagged = rng.random() < 0.5
         by_name = {}
         levels = [[]]
